@@ -877,10 +877,13 @@ pub fn check(ctx: &CheckCtx) -> Option<Found> {
         return Some(f);
     }
     let t = ctx.tier;
-    if let Some(f) = ctx.search("sched", case_strategy(), t.pick(12_000, 200_000), 6, None, run_case) {
-        return Some(f);
+    let child = crate::ship::is_child();
+    if !child {
+        if let Some(f) = ctx.search("sched", case_strategy(), t.pick(12_000, 200_000), 6, None, run_case) {
+            return Some(f);
+        }
     }
-    if let Some(f) = ctx.search("free", free_strategy(), t.pick(3_000, 100_000), 4, None, run_free) {
+    if let Some(f) = ctx.search("free", free_strategy(), if child { 300 } else { t.pick(3_000, 100_000) }, 4, None, run_free) {
         return Some(f);
     }
     // batch limit family (fixed list + random)
